@@ -49,7 +49,15 @@ AllBlindEq(s) == \A i \in DOMAIN s : Blind(s[i]) = Blind(s[1])
 Verdict(px, py, x, y) ==
   IF ~(Shape(px, x) /\ Shape(py, y)) THEN "fail"
   ELSE IF \E v \in Vars(px) \cup Vars(py) : ~AllBlindEq(Occ(px, x, v) \o Occ(py, y, v)) THEN "fail"
-  ELSE LET w == Worst({LeafCompat(Last(Occ(px, x, v)), Last(Occ(py, y, v))) : v \in Vars(px) \cap Vars(py)})
+  ELSE LET shared == Vars(px) \cap Vars(py)
+           \* a variable that stands at several places of one pattern: the statement speaks of "corresponding positions" and does not
+           \* say which of them correspond.  The narrowest reading compares the last occurrence on either side (what the class
+           \* does), the widest every pair of occurrences of the variable; any other reading lies between the two, so where they
+           \* agree the verdict is determined, and where they differ it is unspecified.  Linear patterns (all the grammars use):
+           \* one occurrence on either side, the readings coincide.
+           wLast == Worst({LeafCompat(Last(Occ(px, x, v)), Last(Occ(py, y, v))) : v \in shared})
+           wAll == Worst(UNION {LET o == Occ(px, x, v) \o Occ(py, y, v) IN {LeafCompat(o[i], o[j]) : i \in DOMAIN o, j \in DOMAIN o} : v \in shared})
+           w == IF wLast = wAll THEN wLast ELSE "unspec"
        IN CASE w = "yes" -> "ok" [] w = "no" -> "fail" [] OTHER -> "unspec"
 
 (* a binding r for variable v: the matched sub-category with at most its variable features
